@@ -156,9 +156,12 @@ int main(void)
 	    int r = vnacal_make_scalar_parameter(vcp, re + I * im);
 	    result_int(op, r, r == -1);
 	} else if (strcmp(op, "mkv") == 0) {
+	    /* the two arrays have EXACTLY n entries (heap blocks of that size), so that ASan reports any
+	       read of vnacal_make_vector_parameter beyond the `frequencies` entries the caller passes:
+	       the model (OMakeVector) says that exactly that many entries of each array are used */
 	    int n = (int)nexti();
-	    double *f = calloc(n + 1, sizeof(double));
-	    cx *g = calloc(n + 1, sizeof(cx));
+	    double *f = malloc((n > 0 ? n : 1) * sizeof(double));
+	    cx *g = malloc((n > 0 ? n : 1) * sizeof(cx));
 	    for (int i = 0; i < n; ++i) f[i] = (double)nexti();
 	    for (int i = 0; i < n; ++i) { double re = nexti() / 64.0, im = nexti() / 64.0; g[i] = re + I * im; }
 	    int r = vnacal_make_vector_parameter(vcp, f, n, g);
